@@ -93,6 +93,7 @@ def gen_history(rng, mgr, ncalls, call_maker):
     have_buf = False        # caller variable non-NULL
     last_ok_alloc = False
     held = 0
+    last_cap = 1
     for _ in range(ncalls):
         n, mk = call_maker(rng)
         alloc = 1 if (mgr == "ijg" or rng.chance(2, 3)) else 0
@@ -120,7 +121,8 @@ def gen_history(rng, mgr, ncalls, call_maker):
                 elif d == 1:
                     ops.append("S")
                     held += 1
-            ops.append("A %d 0" % pick_cap(rng, n))
+            last_cap = pick_cap(rng, n)
+            ops.append("A %d 0" % last_cap)
             if rng.chance(1, 3):
                 ops.append("S")
                 held += 1
@@ -128,6 +130,12 @@ def gen_history(rng, mgr, ncalls, call_maker):
                 ops.append("Z %d" % rng.range(0, 8))
             have_buf = True
         else:                                             # pass the previous pointer again
+            if rng.chance(2, 5):                          # ... through another (pointer, size) record
+                ops.append("V %d" % rng.below(8))
+            elif rng.chance(1, 12):
+                ops.append("P %d" % rng.below(8))
+            if mgr == "ijg" and rng.chance(1, 2):         # jpeg_mem_dest re-armed with a smaller / larger granted size
+                ops.append("Z %d" % rng.choice([1, 2, max(1, n // 2), max(1, n - 1), n, n + 1, rng.range(1, max(2, last_cap))]))
             if last_ok_alloc and alloc and mgr != "ijg" and rng.chance(1, 3):
                 ops.append("Z %d" % rng.choice([0, 0, 1, 7, n, 10 * n + 5, 1 << 40]))   # "ignored" when reusing
         ops.append(mk(alloc))
@@ -214,6 +222,8 @@ def classify(tok):
         return "library-frees-caller-buffer"
     if tok.startswith("!ov") or tok.startswith("!or") or tok.startswith("SEGV") or tok == "STOP":
         return "write-outside-destination-buffer"
+    if tok.startswith("!pair"):
+        return "result-stored-through-another-call's-variables"
     if tok.startswith("!moved"):
         return "norealloc-moved-buffer"
     if tok == "DIFF" or tok == "unreadable":
@@ -240,7 +250,7 @@ def judge(ctx, stream, line, impl, model, flavour):
     return True
 
 
-def run_stream(ctx, stream, lines, drv, exes, asan_every, ncorpus=0):
+def run_stream(ctx, stream, lines, drv, exes, asan_every, ncorpus=0, keep_hazard=False):
     """filter by the model's classification, run on the implementation(s), compare"""
     if not lines:
         return 0
@@ -251,7 +261,7 @@ def run_stream(ctx, stream, lines, drv, exes, asan_every, ncorpus=0):
         if ml is None:
             # no model to classify caller misuse: run only histories that cannot contain any
             # (every pointer is freed at most once, sizes are never overstated)
-            if not re.search(r"; (S|G|T|Z)\b", l):
+            if not re.search(r"; (S|G|T|Z|P)\b", l):
                 keep.append(l)
                 exp.append(None)
             continue
@@ -260,7 +270,7 @@ def run_stream(ctx, stream, lines, drv, exes, asan_every, ncorpus=0):
         if not m:
             ctx.broken_tie("model-driver", "unparsable model line: " + ml[i][:100])
             continue
-        if m.group(1) != "1":
+        if m.group(1) != "1" and not (keep_hazard and m.group(2) == "0"):
             dropped += 1            # caller misuse / hazard: outside the theorem, not run
             if i < ncorpus:
                 # a regression history of the corpus became a hazard under the current source
@@ -412,10 +422,24 @@ def run(ctx):
                 cap = sos + k * blen + leave
                 h_lines.append("hist tjx ; A %d 0 ; J %d %d %s ; F" % (cap, (leave + k) & 1, n, spec_str(hs)))
     nh = run_stream(ctx, "H", h_lines, drv, exes, 2)
+    # ---- S: jpeg_mem_dest re-armed on the same object with the SAME pointer value after the caller shrank the block
+    #         in place (free + smaller allocation at the same address: canary / poisoned tail behind it): the granted
+    #         size must be honoured.  Outside the theorem (address recycling), expected clean; model still compared.
+    s_lines = [l for l in corpus if l.startswith("histS ")]
+    s_lines = ["hist" + l[5:] for l in s_lines]
+    for _ in range(ctx.n(300, 3000)):
+        n1, n2 = pick_n(rng), pick_n(rng)
+        c1 = max(n1 + 1, pick_cap(rng, n1))
+        c2 = rng.choice([1, 2, max(1, n1), max(1, n2 // 2), max(1, n2 - 1), n2, n2 + 1, rng.range(1, c1)])
+        c2 = min(c2, c1)
+        s_lines.append("hist ijg ; A %d 0 ; C 1 %d %s ; F ; A %d 1 ; C 1 %d %s%s" % (
+            c1, rng.below(1000), " ".join(map(str, chunking(rng, n1))), c2, rng.below(1000), " ".join(map(str, chunking(rng, n2))),
+            rng.choice(["", " ; F", " ; V 3 ; Z %d ; C 1 7 -%d" % (max(1, c2 // 2), rng.range(1, 300))])))
+    ns = run_stream(ctx, "S", s_lines, drv, exes, 2, keep_hazard=True)
     nd = run_stream(ctx, "D", d_lines, drv, exes, 3, ncorpus=ncd)
     ni = run_stream(ctx, "I", i_lines, drv, exes, 3, ncorpus=nci)
     nt = run_stream(ctx, "T", t_lines, drv, exes, 4, ncorpus=nct)
-    ctx.cov["traces_validated_against_impl"] = nd + ni + nt + nh if drv else 0
+    ctx.cov["traces_validated_against_impl"] = nd + ni + nt + nh + ns if drv else 0
 
     # ---- worst-case size + ICC of lossless transforms: NOREALLOC into exactly tj3TransformBufSize() bytes over
     #      {source ICC} x {instance ICC} x TJPARAM_SAVEMARKERS x TJXOPT_COPYNONE x {tj3GetICCProfile before}
